@@ -82,9 +82,84 @@ type Opts struct {
 	Banned    []int  `json:"banned,omitempty"`     // directive.Enumeration values
 	Entry     string `json:"entry,omitempty"`      // "path" (kit.NewJapi) or "file" (kit.NewJApiFromFile); default path
 	SplitBans bool   `json:"split_bans,omitempty"` // give the banned set as two WithBannedDirectives options
+	// BanLayout != 0: how the caller hands the banned set over is varied from this number — the set
+	// is spread over 1-3 option values (a kind may be named twice), option calls with no kinds at all
+	// are put before, between and after them, the kinds come in slices with spare capacity, and the
+	// caller overwrites its own slices as soon as the JApi value has been created.
+	BanLayout uint64 `json:"ban_layout,omitempty"`
 }
 
 func (o Opts) options() []core.Option {
+	oo, _ := o.optionsAndScribble()
+	return oo
+}
+
+// optionsAndScribble returns the option values and what the caller does with its own slices after
+// the JApi value was created (nil if nothing).
+func (o Opts) optionsAndScribble() ([]core.Option, func()) {
+	if o.BanLayout == 0 || len(o.Banned) == 0 {
+		return o.plainOptions(), nil
+	}
+	r := newRng(o.BanLayout)
+	groups := make([][]directive.Enumeration, 1+r.n(3))
+	for i := range groups {
+		groups[i] = make([]directive.Enumeration, 0, 1+len(o.Banned)+r.n(4))
+	}
+	for _, b := range o.Banned {
+		g := r.n(len(groups))
+		groups[g] = append(groups[g], directive.Enumeration(b))
+		if r.chance(200) {
+			g2 := r.n(len(groups))
+			groups[g2] = append(groups[g2], directive.Enumeration(b)) // named twice
+		}
+	}
+	var oo []core.Option
+	empty := func() {
+		for r.chance(350) {
+			if r.chance(500) {
+				oo = append(oo, core.WithBannedDirectives())
+			} else {
+				oo = append(oo, core.WithBannedDirectives([]directive.Enumeration{}...))
+			}
+		}
+	}
+	fixedAt := r.n(len(groups) + 1)
+	for i, g := range groups {
+		if o.FixedSeed && i == fixedAt {
+			oo = append(oo, core.WithFixedSeedForRegex())
+		}
+		empty()
+		oo = append(oo, core.WithBannedDirectives(g...)) // an empty group is one more call without kinds
+	}
+	empty()
+	if o.FixedSeed && fixedAt == len(groups) {
+		oo = append(oo, core.WithFixedSeedForRegex())
+	}
+	banned := map[int]bool{}
+	for _, b := range o.Banned {
+		banned[b] = true
+	}
+	scribble := func() {
+		// the caller reuses its slices for something else: every element, and the spare capacity,
+		// now holds a kind that is not banned
+		other := 0
+		for banned[other] {
+			other++
+		}
+		for _, g := range groups {
+			g = g[:cap(g)]
+			for i := range g {
+				g[i] = directive.Enumeration(other)
+			}
+		}
+	}
+	if len(banned) >= nDirectiveKinds {
+		scribble = nil
+	}
+	return oo, scribble
+}
+
+func (o Opts) plainOptions() []core.Option {
 	var oo []core.Option
 	if o.FixedSeed {
 		oo = append(oo, core.WithFixedSeedForRegex())
@@ -113,7 +188,13 @@ type Env struct {
 	ClockStart int64 `json:"clock_start,omitempty"`
 	RandSeed   int64 `json:"rand_seed,omitempty"`
 	Universal  bool  `json:"universal,omitempty"`
-	Slack      int   `json:"slack,omitempty"` // spare capacity of the root content handed to kit.NewJApiFromFile (files read through the disk get os.ReadFile's capacity)
+	// ReadOrder: in which order the caller reads an accepted JApi (0: ToJson, ToJsonIndent, Title;
+	// see readOrders), and whether it asks for the title before validating.
+	ReadOrder int `json:"read_order,omitempty"`
+	// CwdShadow: the process runs in another working directory, in which every relative name exists
+	// as a regular file (only for projects whose root path is absolute).
+	CwdShadow bool `json:"cwd_shadow,omitempty"`
+	Slack     int  `json:"slack,omitempty"` // spare capacity of the root content handed to kit.NewJApiFromFile (files read through the disk get os.ReadFile's capacity)
 }
 
 // Case is everything needed to repeat one simulated execution exactly.
@@ -266,14 +347,23 @@ func (r *Result) digest() string {
 
 // mountProject builds the simulated disk of a project.
 func mountProject(p *Project, env Env, plan []simrt.PlannedFault) *simrt.Disk {
-	d := simrt.NewDisk(p.cwd())
+	cwd := p.cwd()
+	shadow := env.CwdShadow && filepath.IsAbs(p.Root)
+	if shadow {
+		cwd = "/sim/elsewhere/wd"
+	}
+	d := simrt.NewDisk(cwd)
+	if shadow {
+		d.ShadowDir = cwd
+		d.UniversalContent = []byte("TYPE @fromcwd\n  {\"cwd\": true}\n")
+	}
 	for path := range p.Files {
 		d.AddFile(path, p.content(path))
 	}
 	for _, dir := range p.Dirs {
 		d.AddDir(dir)
 	}
-	d.AddDir(p.cwd())
+	d.AddDir(cwd)
 	d.Plan = plan
 	d.MaxCalls = 10000
 	if env.Universal {
@@ -362,8 +452,22 @@ func normPanicMsg(s string) string {
 // runLibrary drives the public API once: create, validate, serialise.
 // The simulated disk and environment must already be installed.
 func runLibrary(root string, rootContent []byte, o Opts) (res Result) {
-	return runLibraryWith(root, rootContent, o.options(), o.Entry)
+	oo, scribble := o.optionsAndScribble()
+	afterCreate = scribble
+	defer func() { afterCreate = nil }()
+	return runLibraryWith(root, rootContent, oo, o.Entry)
 }
+
+// afterCreate, if set, is what the caller does between creating and validating the JApi value
+// (sequential executions only).
+var afterCreate func()
+
+// curReadOrder is Env.ReadOrder of the execution under way.
+var curReadOrder int
+
+// readOrders: the calls a caller makes on an accepted JApi, in order (j ToJson, i ToJsonIndent,
+// t Title). A leading T asks for the title before validation.
+var readOrders = []string{"jit", "tji", "itj", "Tjit", "jtji", "Titj", "tij"}
 
 // executeWith is execute for option values built by the caller (so that one option value
 // can be shared between several JApi values).
@@ -373,6 +477,7 @@ func executeWith(p *Project, oo []core.Option, entry string, env Env, seed uint6
 	simrt.SetMapPolicy(env.MapPolicy)
 	simrt.SetPoolPolicy(env.PoolPolicy, env.PoolDrop)
 	simrt.SetClock(1_700_000_000+env.ClockStart, env.RandSeed)
+	curReadOrder = env.ReadOrder
 	d := mountProject(p, env, nil)
 	simrt.FS = d
 	total := uint64(p.totalBytes() + 200)
@@ -423,6 +528,18 @@ func runLibraryWith(root string, rootContent []byte, options []core.Option, entr
 			return res
 		}
 	}
+	if afterCreate != nil && !simrt.Scheduling() {
+		afterCreate()
+	}
+	order := readOrders[0]
+	if curReadOrder > 0 && curReadOrder < len(readOrders) {
+		order = readOrders[curReadOrder]
+	}
+	if order[0] == 'T' {
+		stage = "title-before-validate"
+		_ = j.Title()
+		order = order[1:]
+	}
 	stage = "validate"
 	je := j.ValidateJAPI()
 	if je != nil {
@@ -430,20 +547,38 @@ func runLibraryWith(root string, rootContent []byte, options []core.Option, entr
 		return res
 	}
 	res.Accepted = true
-	stage = "tojson"
-	b, err := j.ToJson()
-	if err != nil {
-		res.SerErr = "tojson: " + err.Error()
+	var b, b2 []byte
+	var err error
+	haveJ, haveI := false, false
+	for _, what := range order {
+		switch what {
+		case 'j':
+			stage = "tojson"
+			bb, e := j.ToJson()
+			if !haveJ {
+				b, err, haveJ = bb, e, true
+				if e != nil {
+					res.SerErr += "tojson: " + e.Error()
+				}
+				res.JSON = string(b)
+			} else if string(bb) != res.JSON && e == nil {
+				res.SerErr += " second-tojson-differs"
+			}
+		case 'i':
+			stage = "tojsonindent"
+			bb, e := j.ToJsonIndent()
+			if !haveI {
+				b2, haveI = bb, true
+				if e != nil {
+					res.SerErr += " tojsonindent: " + e.Error()
+				}
+				res.JSONIndent = string(b2)
+			}
+		case 't':
+			stage = "title"
+			res.Title = j.Title()
+		}
 	}
-	res.JSON = string(b)
-	stage = "tojsonindent"
-	b2, err := j.ToJsonIndent()
-	if err != nil {
-		res.SerErr += " tojsonindent: " + err.Error()
-	}
-	res.JSONIndent = string(b2)
-	stage = "title"
-	res.Title = j.Title()
 	// The bytes handed out earlier belong to the caller: a second serialisation (here, or by another
 	// goroutine of a concurrent workload) must not change them.
 	stage = "tojson-again"
@@ -453,6 +588,12 @@ func runLibraryWith(root string, rootContent []byte, options []core.Option, entr
 	}
 	if string(b3) != res.JSON && err == nil {
 		res.SerErr += " second-tojson-differs"
+	}
+	if b4, e := j.ToJsonIndent(); e == nil && string(b4) != res.JSONIndent {
+		res.SerErr += " second-tojsonindent-differs"
+	}
+	if j.Title() != res.Title {
+		res.SerErr += " second-title-differs"
 	}
 	return res
 }
@@ -476,6 +617,7 @@ func execute(p *Project, o Opts, env Env, plan []simrt.PlannedFault, seed uint64
 	simrt.SetMapPolicy(env.MapPolicy)
 	simrt.SetPoolPolicy(env.PoolPolicy, env.PoolDrop)
 	simrt.SetClock(1_700_000_000+env.ClockStart, env.RandSeed)
+	curReadOrder = env.ReadOrder
 	d := mountProject(p, env, plan)
 	simrt.FS = d
 	total := uint64(p.totalBytes() + 200)
